@@ -297,3 +297,5 @@ def run(ctx):
     ctx.guarded(r, r_interval_wellformed)
     # a reciprocal taken with a bound exactly at the pole builds reversed bounds, which Interval::new refuses (a panic)
     ctx.include('C03', 'interval operations must not build bounds that Interval::new rejects', only=('R5r',))
+    # "mismatched slice lengths, missing bound variables are reported as error values": the shape evaluators' own checks
+    ctx.include('C14', 'argument errors of the shape evaluators are error values', only=('R3c', 'R3d'))
